@@ -6,7 +6,7 @@
 -/
 import CxVerif.Extracted.GlueDigest
 namespace Cx.Proofs.GlueDigest
-open Cx Cx.Impl.Digest Cx.Extracted.GlueDigest
+open Cx Cx.Impl Cx.Impl.Digest Cx.Extracted.GlueDigest
 
 /-! ### the macro-generated wrappers: one lemma per method, generic in the context model -/
 
@@ -96,5 +96,1025 @@ theorem result_str_loop {δ : Type} (D : DigestModel δ) (buf : Bytes) : ∀ v :
     unfold Digest.result_str_loop1_src
     simp only [e2, h1, h2, h3, h4, if_true, ih]
     simp [hexAscii]
+
+/-! ### the legacy BLAKE2 objects (src/blake2b.rs, src/blake2s.rs)
+
+  The Rust struct keeps `key: [u8; N]` and `keylen`; the hand model `Impl.Digest.Blake2` keeps `key[..keylen]`: `abs`.
+  `Inv` is the typing invariant of the array plus `keylen ≤ N` (established by the constructors, preserved by every method).
+  The two files are the same text up to b/s, `u64`/`u32` and `N` = 64 / 32 (the `assert!(key.len() <= 64)` of `new_keyed` is 64
+  in both); so are the two groups of lemmas. -/
+
+set_option linter.unusedSimpArgs false
+set_option linter.unusedVariables false
+
+namespace B2b
+open Cx.Impl.Blake2 (ContextDyn)
+abbrev P := Impl.Blake2.b
+
+/-- abstraction: the model keeps `key[..keylen]` -/
+def abs (s : Blake2b.Obj) : Impl.Digest.Blake2 UInt64 := { ctx := s.ctx, computed := s.computed, key := s.key.take s.keylen }
+
+/-- typing invariant: `key: [u8; 64]`, and `keylen` is the length of a key that fitted -/
+def Inv (s : Blake2b.Obj) : Prop := s.key.length = 64 ∧ s.keylen ≤ 64
+
+theorem maxKey : P.maxKey = 64 := by decide
+
+theorem rwk_len {c c' : ContextDyn UInt64} {key : Bytes} (h : ContextDyn.reset_with_key P c key = some c') : key.length ≤ 64 := by
+  unfold ContextDyn.reset_with_key Impl.Blake2.Ctx.reset_with_key at h
+  by_cases hk : key.length ≤ P.maxKey
+  · rw [maxKey] at hk; exact hk
+  · simp [hk] at h
+
+theorem nk_len {outlen : Nat} {c' : ContextDyn UInt64} {key : Bytes} (h : ContextDyn.new_keyed P outlen key = some c') : key.length ≤ 64 := by
+  unfold ContextDyn.new_keyed Impl.Blake2.Ctx.new_keyed at h
+  by_cases hk : key.length ≤ P.maxKey
+  · rw [maxKey] at hk; exact hk
+  · by_cases ho : (outlen > 0 ∧ outlen ≤ P.maxOut) <;> simp [hk, ho] at h
+
+theorem new_src_eq (outlen : Nat) : (Blake2b.new_src outlen).map abs = Blake2.new P outlen := by
+  unfold Blake2b.new_src Blake2.new
+  cases ContextDyn.new P outlen <;> simp [abs]
+
+theorem new_src_inv (outlen : Nat) (s : Blake2b.Obj) (h : Blake2b.new_src outlen = some s) : Inv s := by
+  unfold Blake2b.new_src at h
+  cases hc : ContextDyn.new P outlen <;> simp [hc] at h
+  subst h; simp [Inv, zeros]
+
+theorem new_keyed_src_eq (outlen : Nat) (key : Bytes) :
+    (Blake2b.new_keyed_src outlen key).map abs = Blake2.new_keyed P bKeyAssert outlen key := by
+  unfold Blake2b.new_keyed_src Blake2.new_keyed
+  have : bKeyAssert = 64 := by decide
+  rw [this]
+  by_cases hk : key.length ≤ 64
+  · cases hc : ContextDyn.new_keyed P outlen key with
+    | none => simp [hk]
+    | some c =>
+      have hk2 := nk_len hc
+      simp [hk, hk2, abs]
+  · simp [hk]
+
+theorem new_keyed_src_inv (outlen : Nat) (key : Bytes) (s : Blake2b.Obj) (h : Blake2b.new_keyed_src outlen key = some s) : Inv s := by
+  unfold Blake2b.new_keyed_src at h
+  by_cases hk : key.length ≤ 64
+  · cases hc : ContextDyn.new_keyed P outlen key with
+    | none => simp [hk, hc] at h
+    | some c =>
+      have hk2 := nk_len hc
+      simp [hk, hk2, hc] at h
+      subst h
+      refine ⟨?_, hk2⟩
+      simp [zeros]; omega
+  · simp [hk] at h
+
+theorem update_src_eq (s : Blake2b.Obj) (input : Bytes) :
+    (Blake2b.update_src s input).map abs = Blake2.update P (abs s) input := by
+  unfold Blake2b.update_src Blake2.update
+  cases hcomp : s.computed <;> cases hc : ContextDyn.update_mut P blakeProfile s.ctx input <;> simp [abs, hcomp, hc]
+
+theorem finalize_src_eq (s : Blake2b.Obj) (slice : Bytes) :
+    (Blake2b.finalize_src s slice).map (fun p => (abs p.1, p.2)) = Blake2.finalize P (abs s) slice.length := by
+  unfold Blake2b.finalize_src Blake2.finalize
+  cases hcomp : s.computed <;> cases hc : ContextDyn.finalize_reset_at P blakeProfile s.ctx slice.length <;> simp [abs, hcomp, hc]
+
+theorem reset_src_eq (s : Blake2b.Obj) (hi : Inv s) :
+    (Blake2b.reset_src s).map abs = Blake2.reset codeVariant P (abs s) := by
+  obtain ⟨hl, hk⟩ := hi
+  unfold Blake2b.reset_src Blake2b.reset_k1_src Blake2.reset
+  have e : codeVariant = .repaired := rfl
+  simp only [e, abs]
+  have hlen : (List.take s.keylen s.key).length = s.keylen := by simp [hl]; omega
+  by_cases h0 : s.keylen > 0
+  · cases hc : ContextDyn.reset_with_key P s.ctx (s.key.take s.keylen) <;> simp [h0, hk, hc, hlen, abs]
+  · simp [h0, hlen, abs]
+
+theorem reset_src_inv (s s' : Blake2b.Obj) (hi : Inv s) (h : Blake2b.reset_src s = some s') : Inv s' := by
+  obtain ⟨hl, hk⟩ := hi
+  unfold Blake2b.reset_src Blake2b.reset_k1_src at h
+  by_cases h0 : s.keylen > 0
+  · cases hc : ContextDyn.reset_with_key P s.ctx (s.key.take s.keylen) <;> simp [h0, hk, hc] at h
+    subst h; exact ⟨hl, hk⟩
+  · simp [h0] at h
+    subst h; exact ⟨hl, hk⟩
+
+theorem reset_with_key_src_eq (s : Blake2b.Obj) (key : Bytes) :
+    (Blake2b.reset_with_key_src s key).map abs = Blake2.reset_with_key P (abs s) key := by
+  unfold Blake2b.reset_with_key_src Blake2.reset_with_key
+  cases hc : ContextDyn.reset_with_key P s.ctx key with
+  | none => simp [abs, hc]
+  | some c =>
+    have hk := rwk_len hc
+    simp [abs, hc, hk]
+
+theorem reset_with_key_src_inv (s s' : Blake2b.Obj) (key : Bytes) (h : Blake2b.reset_with_key_src s key = some s') : Inv s' := by
+  unfold Blake2b.reset_with_key_src at h
+  cases hc : ContextDyn.reset_with_key P s.ctx key with
+  | none => simp [hc] at h
+  | some c =>
+    have hk := rwk_len hc
+    simp [hc, hk] at h
+    subst h
+    refine ⟨?_, hk⟩
+    simp [zeros]; omega
+
+theorem update_src_inv (s s' : Blake2b.Obj) (input : Bytes) (hi : Inv s) (h : Blake2b.update_src s input = some s') : Inv s' := by
+  unfold Blake2b.update_src at h
+  cases hcomp : s.computed <;> cases hc : ContextDyn.update_mut P blakeProfile s.ctx input <;> simp [hcomp, hc] at h
+  subst h; exact hi
+
+theorem finalize_src_inv (s s' : Blake2b.Obj) (slice out : Bytes) (hi : Inv s) (h : Blake2b.finalize_src s slice = some (s', out)) :
+    Inv s' := by
+  unfold Blake2b.finalize_src at h
+  cases hcomp : s.computed <;> cases hc : ContextDyn.finalize_reset_at P blakeProfile s.ctx slice.length <;> simp [hcomp, hc] at h
+  obtain ⟨h1, _⟩ := h
+  subst h1; exact hi
+
+/-- the static one-shot `Blake2b::blake2b(out, input, key)`: the new contents of `out` -/
+theorem blake2b_src_eq (out input key : Bytes) :
+    Blake2b.blake2b_src out input key = Blake2.oneShot P bKeyAssert out.length input key := by
+  unfold Blake2b.blake2b_src Blake2.oneShot
+  have h1 : (if (!key.isEmpty) = true then Blake2.new_keyed P bKeyAssert out.length key else Blake2.new P out.length)
+      = (if (!key.isEmpty) = true then Blake2b.new_keyed_src out.length key else Blake2b.new_src out.length).map abs := by
+    split
+    · rw [new_keyed_src_eq]
+    · rw [new_src_eq]
+  rw [h1]
+  cases (if (!key.isEmpty) = true then Blake2b.new_keyed_src out.length key else Blake2b.new_src out.length) with
+  | none => rfl
+  | some s =>
+    simp only [Option.map_some]
+    rw [← update_src_eq]
+    cases Blake2b.update_src s input with
+    | none => rfl
+    | some s2 =>
+      simp only [Option.map_some]
+      rw [← finalize_src_eq]
+      cases Blake2b.finalize_src s2 out with
+      | none => rfl
+      | some p => rfl
+
+/-! `impl Digest for Blake2b` -/
+
+theorem digest_input_src_eq (s : Blake2b.Obj) (msg : Bytes) :
+    (Blake2b.Digest.input_src s msg).map abs = (blake2bDigest codeVariant).input (abs s) msg := by
+  unfold Blake2b.Digest.input_src
+  show _ = Blake2.update P (abs s) msg
+  rw [← update_src_eq]
+  cases Blake2b.update_src s msg <;> rfl
+
+theorem digest_reset_src_eq (s : Blake2b.Obj) (hi : Inv s) :
+    (Blake2b.Digest.reset_src s).map abs = (blake2bDigest codeVariant).reset (abs s) := by
+  unfold Blake2b.Digest.reset_src
+  show _ = Blake2.reset codeVariant P (abs s)
+  rw [← reset_src_eq s hi]
+  cases Blake2b.reset_src s <;> rfl
+
+theorem digest_result_src_eq (s : Blake2b.Obj) (out : Bytes) :
+    (Blake2b.Digest.result_src s out).map (fun p => (abs p.1, p.2)) = (blake2bDigest codeVariant).result (abs s) out.length := by
+  unfold Blake2b.Digest.result_src
+  show _ = Blake2.finalize P (abs s) out.length
+  rw [← finalize_src_eq]
+  cases Blake2b.finalize_src s out <;> rfl
+
+theorem digest_output_bits_src_eq (s : Blake2b.Obj) :
+    Blake2b.Digest.output_bits_src s = (blake2bDigest codeVariant).output_bits (abs s) := rfl
+
+theorem digest_block_size_src_eq (s : Blake2b.Obj) :
+    Blake2b.Digest.block_size_src s = (blake2bDigest codeVariant).block_size (abs s) := rfl
+
+/-! `impl Mac for Blake2b` -/
+
+theorem mac_input_src_eq (s : Blake2b.Obj) (data : Bytes) :
+    (Blake2b.Mac.input_src s data).map abs = (blake2bMac codeVariant).input (abs s) data := by
+  unfold Blake2b.Mac.input_src
+  show _ = Blake2.update P (abs s) data
+  rw [← update_src_eq]
+  cases Blake2b.update_src s data <;> rfl
+
+theorem mac_reset_src_eq (s : Blake2b.Obj) (hi : Inv s) :
+    (Blake2b.Mac.reset_src s).map abs = (blake2bMac codeVariant).reset (abs s) := by
+  unfold Blake2b.Mac.reset_src
+  show _ = Blake2.reset codeVariant P (abs s)
+  rw [← reset_src_eq s hi]
+  cases Blake2b.reset_src s <;> rfl
+
+theorem mac_raw_result_src_eq (s : Blake2b.Obj) (output : Bytes) :
+    (Blake2b.Mac.raw_result_src s output).map (fun p => (abs p.1, p.2))
+      = (blake2bMac codeVariant).raw_result (abs s) output.length := by
+  unfold Blake2b.Mac.raw_result_src
+  show _ = Blake2.finalize P (abs s) output.length
+  rw [← finalize_src_eq]
+  cases Blake2b.finalize_src s output <;> rfl
+
+/-- `result()`: a buffer of `output_bits() / 8` zero bytes through `raw_result`, wrapped by `MacResult::new_from_owned` -/
+theorem mac_result_src_eq (s : Blake2b.Obj) :
+    (Blake2b.Mac.result_src s).map (fun p => (abs p.1, p.2.code)) = (blake2bMac codeVariant).result (abs s) := by
+  unfold Blake2b.Mac.result_src
+  have hz : ∀ n, (zeros n).length = n := by intro n; simp [zeros]
+  have h := mac_raw_result_src_eq s (zeros (s.ctx.output_bits / 8))
+  rw [hz] at h
+  show _ = (blake2bMac codeVariant).raw_result (abs s) (s.ctx.output_bits / 8)
+  rw [← h]
+  show Option.map _ (match Blake2b.Mac.raw_result_src s (zeros (s.ctx.output_bits / 8)) with | none => none | some (self, mac) => _) = _
+  cases Blake2b.Mac.raw_result_src s (zeros (s.ctx.output_bits / 8)) <;> rfl
+
+theorem mac_output_bytes_src_eq (s : Blake2b.Obj) :
+    Blake2b.Mac.output_bytes_src s = (blake2bMac codeVariant).output_bytes (abs s) := rfl
+end B2b
+
+namespace B2s
+open Cx.Impl.Blake2 (ContextDyn)
+abbrev P := Impl.Blake2.s
+
+/-- abstraction: the model keeps `key[..keylen]` -/
+def abs (s : Blake2s.Obj) : Impl.Digest.Blake2 UInt32 := { ctx := s.ctx, computed := s.computed, key := s.key.take s.keylen }
+
+/-- typing invariant: `key: [u8; 32]`, and `keylen` is the length of a key that fitted -/
+def Inv (s : Blake2s.Obj) : Prop := s.key.length = 32 ∧ s.keylen ≤ 32
+
+theorem maxKey : P.maxKey = 32 := by decide
+
+theorem rwk_len {c c' : ContextDyn UInt32} {key : Bytes} (h : ContextDyn.reset_with_key P c key = some c') : key.length ≤ 32 := by
+  unfold ContextDyn.reset_with_key Impl.Blake2.Ctx.reset_with_key at h
+  by_cases hk : key.length ≤ P.maxKey
+  · rw [maxKey] at hk; exact hk
+  · simp [hk] at h
+
+theorem nk_len {outlen : Nat} {c' : ContextDyn UInt32} {key : Bytes} (h : ContextDyn.new_keyed P outlen key = some c') : key.length ≤ 32 := by
+  unfold ContextDyn.new_keyed Impl.Blake2.Ctx.new_keyed at h
+  by_cases hk : key.length ≤ P.maxKey
+  · rw [maxKey] at hk; exact hk
+  · by_cases ho : (outlen > 0 ∧ outlen ≤ P.maxOut) <;> simp [hk, ho] at h
+
+theorem new_src_eq (outlen : Nat) : (Blake2s.new_src outlen).map abs = Blake2.new P outlen := by
+  unfold Blake2s.new_src Blake2.new
+  cases ContextDyn.new P outlen <;> simp [abs]
+
+theorem new_src_inv (outlen : Nat) (s : Blake2s.Obj) (h : Blake2s.new_src outlen = some s) : Inv s := by
+  unfold Blake2s.new_src at h
+  cases hc : ContextDyn.new P outlen <;> simp [hc] at h
+  subst h; simp [Inv, zeros]
+
+theorem new_keyed_src_eq (outlen : Nat) (key : Bytes) :
+    (Blake2s.new_keyed_src outlen key).map abs = Blake2.new_keyed P sKeyAssert outlen key := by
+  unfold Blake2s.new_keyed_src Blake2.new_keyed
+  have : sKeyAssert = 64 := by decide
+  rw [this]
+  by_cases hk : key.length ≤ 64
+  · cases hc : ContextDyn.new_keyed P outlen key with
+    | none => simp [hk]
+    | some c =>
+      have hk2 := nk_len hc
+      simp [hk, hk2, abs]
+  · simp [hk]
+
+theorem new_keyed_src_inv (outlen : Nat) (key : Bytes) (s : Blake2s.Obj) (h : Blake2s.new_keyed_src outlen key = some s) : Inv s := by
+  unfold Blake2s.new_keyed_src at h
+  by_cases hk : key.length ≤ 64
+  · cases hc : ContextDyn.new_keyed P outlen key with
+    | none => simp [hk, hc] at h
+    | some c =>
+      have hk2 := nk_len hc
+      simp [hk, hk2, hc] at h
+      subst h
+      refine ⟨?_, hk2⟩
+      simp [zeros]; omega
+  · simp [hk] at h
+
+theorem update_src_eq (s : Blake2s.Obj) (input : Bytes) :
+    (Blake2s.update_src s input).map abs = Blake2.update P (abs s) input := by
+  unfold Blake2s.update_src Blake2.update
+  cases hcomp : s.computed <;> cases hc : ContextDyn.update_mut P blakeProfile s.ctx input <;> simp [abs, hcomp, hc]
+
+theorem finalize_src_eq (s : Blake2s.Obj) (slice : Bytes) :
+    (Blake2s.finalize_src s slice).map (fun p => (abs p.1, p.2)) = Blake2.finalize P (abs s) slice.length := by
+  unfold Blake2s.finalize_src Blake2.finalize
+  cases hcomp : s.computed <;> cases hc : ContextDyn.finalize_reset_at P blakeProfile s.ctx slice.length <;> simp [abs, hcomp, hc]
+
+theorem reset_src_eq (s : Blake2s.Obj) (hi : Inv s) :
+    (Blake2s.reset_src s).map abs = Blake2.reset codeVariant P (abs s) := by
+  obtain ⟨hl, hk⟩ := hi
+  unfold Blake2s.reset_src Blake2s.reset_k1_src Blake2.reset
+  have e : codeVariant = .repaired := rfl
+  simp only [e, abs]
+  have hlen : (List.take s.keylen s.key).length = s.keylen := by simp [hl]; omega
+  by_cases h0 : s.keylen > 0
+  · cases hc : ContextDyn.reset_with_key P s.ctx (s.key.take s.keylen) <;> simp [h0, hk, hc, hlen, abs]
+  · simp [h0, hlen, abs]
+
+theorem reset_src_inv (s s' : Blake2s.Obj) (hi : Inv s) (h : Blake2s.reset_src s = some s') : Inv s' := by
+  obtain ⟨hl, hk⟩ := hi
+  unfold Blake2s.reset_src Blake2s.reset_k1_src at h
+  by_cases h0 : s.keylen > 0
+  · cases hc : ContextDyn.reset_with_key P s.ctx (s.key.take s.keylen) <;> simp [h0, hk, hc] at h
+    subst h; exact ⟨hl, hk⟩
+  · simp [h0] at h
+    subst h; exact ⟨hl, hk⟩
+
+theorem reset_with_key_src_eq (s : Blake2s.Obj) (key : Bytes) :
+    (Blake2s.reset_with_key_src s key).map abs = Blake2.reset_with_key P (abs s) key := by
+  unfold Blake2s.reset_with_key_src Blake2.reset_with_key
+  cases hc : ContextDyn.reset_with_key P s.ctx key with
+  | none => simp [abs, hc]
+  | some c =>
+    have hk := rwk_len hc
+    simp [abs, hc, hk]
+
+theorem reset_with_key_src_inv (s s' : Blake2s.Obj) (key : Bytes) (h : Blake2s.reset_with_key_src s key = some s') : Inv s' := by
+  unfold Blake2s.reset_with_key_src at h
+  cases hc : ContextDyn.reset_with_key P s.ctx key with
+  | none => simp [hc] at h
+  | some c =>
+    have hk := rwk_len hc
+    simp [hc, hk] at h
+    subst h
+    refine ⟨?_, hk⟩
+    simp [zeros]; omega
+
+theorem update_src_inv (s s' : Blake2s.Obj) (input : Bytes) (hi : Inv s) (h : Blake2s.update_src s input = some s') : Inv s' := by
+  unfold Blake2s.update_src at h
+  cases hcomp : s.computed <;> cases hc : ContextDyn.update_mut P blakeProfile s.ctx input <;> simp [hcomp, hc] at h
+  subst h; exact hi
+
+theorem finalize_src_inv (s s' : Blake2s.Obj) (slice out : Bytes) (hi : Inv s) (h : Blake2s.finalize_src s slice = some (s', out)) :
+    Inv s' := by
+  unfold Blake2s.finalize_src at h
+  cases hcomp : s.computed <;> cases hc : ContextDyn.finalize_reset_at P blakeProfile s.ctx slice.length <;> simp [hcomp, hc] at h
+  obtain ⟨h1, _⟩ := h
+  subst h1; exact hi
+
+/-- the static one-shot `Blake2s::blake2s(out, input, key)`: the new contents of `out` -/
+theorem blake2s_src_eq (out input key : Bytes) :
+    Blake2s.blake2s_src out input key = Blake2.oneShot P sKeyAssert out.length input key := by
+  unfold Blake2s.blake2s_src Blake2.oneShot
+  have h1 : (if (!key.isEmpty) = true then Blake2.new_keyed P sKeyAssert out.length key else Blake2.new P out.length)
+      = (if (!key.isEmpty) = true then Blake2s.new_keyed_src out.length key else Blake2s.new_src out.length).map abs := by
+    split
+    · rw [new_keyed_src_eq]
+    · rw [new_src_eq]
+  rw [h1]
+  cases (if (!key.isEmpty) = true then Blake2s.new_keyed_src out.length key else Blake2s.new_src out.length) with
+  | none => rfl
+  | some s =>
+    simp only [Option.map_some]
+    rw [← update_src_eq]
+    cases Blake2s.update_src s input with
+    | none => rfl
+    | some s2 =>
+      simp only [Option.map_some]
+      rw [← finalize_src_eq]
+      cases Blake2s.finalize_src s2 out with
+      | none => rfl
+      | some p => rfl
+
+/-! `impl Digest for Blake2s` -/
+
+theorem digest_input_src_eq (s : Blake2s.Obj) (msg : Bytes) :
+    (Blake2s.Digest.input_src s msg).map abs = (blake2sDigest codeVariant).input (abs s) msg := by
+  unfold Blake2s.Digest.input_src
+  show _ = Blake2.update P (abs s) msg
+  rw [← update_src_eq]
+  cases Blake2s.update_src s msg <;> rfl
+
+theorem digest_reset_src_eq (s : Blake2s.Obj) (hi : Inv s) :
+    (Blake2s.Digest.reset_src s).map abs = (blake2sDigest codeVariant).reset (abs s) := by
+  unfold Blake2s.Digest.reset_src
+  show _ = Blake2.reset codeVariant P (abs s)
+  rw [← reset_src_eq s hi]
+  cases Blake2s.reset_src s <;> rfl
+
+theorem digest_result_src_eq (s : Blake2s.Obj) (out : Bytes) :
+    (Blake2s.Digest.result_src s out).map (fun p => (abs p.1, p.2)) = (blake2sDigest codeVariant).result (abs s) out.length := by
+  unfold Blake2s.Digest.result_src
+  show _ = Blake2.finalize P (abs s) out.length
+  rw [← finalize_src_eq]
+  cases Blake2s.finalize_src s out <;> rfl
+
+theorem digest_output_bits_src_eq (s : Blake2s.Obj) :
+    Blake2s.Digest.output_bits_src s = (blake2sDigest codeVariant).output_bits (abs s) := rfl
+
+theorem digest_block_size_src_eq (s : Blake2s.Obj) :
+    Blake2s.Digest.block_size_src s = (blake2sDigest codeVariant).block_size (abs s) := rfl
+
+/-! `impl Mac for Blake2s` -/
+
+theorem mac_input_src_eq (s : Blake2s.Obj) (data : Bytes) :
+    (Blake2s.Mac.input_src s data).map abs = (blake2sMac codeVariant).input (abs s) data := by
+  unfold Blake2s.Mac.input_src
+  show _ = Blake2.update P (abs s) data
+  rw [← update_src_eq]
+  cases Blake2s.update_src s data <;> rfl
+
+theorem mac_reset_src_eq (s : Blake2s.Obj) (hi : Inv s) :
+    (Blake2s.Mac.reset_src s).map abs = (blake2sMac codeVariant).reset (abs s) := by
+  unfold Blake2s.Mac.reset_src
+  show _ = Blake2.reset codeVariant P (abs s)
+  rw [← reset_src_eq s hi]
+  cases Blake2s.reset_src s <;> rfl
+
+theorem mac_raw_result_src_eq (s : Blake2s.Obj) (output : Bytes) :
+    (Blake2s.Mac.raw_result_src s output).map (fun p => (abs p.1, p.2))
+      = (blake2sMac codeVariant).raw_result (abs s) output.length := by
+  unfold Blake2s.Mac.raw_result_src
+  show _ = Blake2.finalize P (abs s) output.length
+  rw [← finalize_src_eq]
+  cases Blake2s.finalize_src s output <;> rfl
+
+/-- `result()`: a buffer of `output_bits() / 8` zero bytes through `raw_result`, wrapped by `MacResult::new_from_owned` -/
+theorem mac_result_src_eq (s : Blake2s.Obj) :
+    (Blake2s.Mac.result_src s).map (fun p => (abs p.1, p.2.code)) = (blake2sMac codeVariant).result (abs s) := by
+  unfold Blake2s.Mac.result_src
+  have hz : ∀ n, (zeros n).length = n := by intro n; simp [zeros]
+  have h := mac_raw_result_src_eq s (zeros (s.ctx.output_bits / 8))
+  rw [hz] at h
+  show _ = (blake2sMac codeVariant).raw_result (abs s) (s.ctx.output_bits / 8)
+  rw [← h]
+  show Option.map _ (match Blake2s.Mac.raw_result_src s (zeros (s.ctx.output_bits / 8)) with | none => none | some (self, mac) => _) = _
+  cases Blake2s.Mac.raw_result_src s (zeros (s.ctx.output_bits / 8)) <;> rfl
+
+theorem mac_output_bytes_src_eq (s : Blake2s.Obj) :
+    Blake2s.Mac.output_bytes_src s = (blake2sMac codeVariant).output_bytes (abs s) := rfl
+end B2s
+
+/-! ### src/hashing/sha1.rs, src/hashing/ripemd160.rs, src/hashing/sha2/mod.rs, src/hashing/mod.rs -/
+
+theorem store_step (pre rest w : Bytes) (k : Nat) (hp : pre.length = k) :
+    (pre ++ rest).take k ++ w ++ (pre ++ rest).drop (k + 4) = (pre ++ w) ++ rest.drop 4 := by
+  subst hp
+  simp [List.drop_append]
+  
+theorem five_stores (rs a b c d e : Bytes) (hr : rs.length = 20) (ha : a.length = 4) (hb : b.length = 4) (hc : c.length = 4)
+    (hd : d.length = 4) (he : e.length = 4) :
+    (let rs := a ++ rs.drop 4
+     let rs := rs.take 4 ++ b ++ rs.drop 8
+     let rs := rs.take 8 ++ c ++ rs.drop 12
+     let rs := rs.take 12 ++ d ++ rs.drop 16
+     let rs := rs.take 16 ++ e ++ rs.drop 20
+     rs) = a ++ b ++ c ++ d ++ e := by
+  simp only
+  have h1 := store_step a (rs.drop 4) b 4 ha
+  rw [h1]
+  have h2 := store_step (a ++ b) ((rs.drop 4).drop 4) c 8 (by simp [ha, hb])
+  rw [h2]
+  have h3 := store_step (a ++ b ++ c) (((rs.drop 4).drop 4).drop 4) d 12 (by simp [ha, hb, hc])
+  rw [h3]
+  have h4 := store_step (a ++ b ++ c ++ d) ((((rs.drop 4).drop 4).drop 4).drop 4) e 16 (by simp [ha, hb, hc, hd])
+  rw [h4]
+  have : ((((rs.drop 4).drop 4).drop 4).drop 4).drop 4 = [] := by
+    apply List.eq_nil_of_length_eq_zero; simp [hr]
+  rw [this]; simp
+
+theorem natToLE_length (n v : Nat) : (natToLE n v).length = n := by
+  induction n generalizing v with
+  | zero => simp [natToLE]
+  | succ k ih => simp [natToLE, ih]
+theorem u32be_length (w : UInt32) : (u32be w).length = 4 := by simp [u32be, natToBE, natToLE_length]
+theorem u32le_length (w : UInt32) : (u32le w).length = 4 := by simp [u32le, natToLE_length]
+
+namespace HS1
+open Cx.Impl.Sha1
+
+theorem digest_block_src_eq (state : Spec.Sha1.Hash) (block : Bytes) :
+    HSha1.digest_block_src state block = digest_block state block := by
+  unfold HSha1.digest_block_src digest_block Impl.read_u32v_be BLOCK_BYTES
+  by_cases h : block.length = 64
+  · simp [h]
+    cases digest_block_u32 state (wordsBE32 block) <;> rfl
+  · simp [h]
+
+theorem digest_block_fun : (fun cs d => HSha1.digest_block_src cs d) = digest_block := by
+  funext cs d; exact digest_block_src_eq cs d
+
+theorem digest_blocks_loop_eq (l : List Bytes) : ∀ state, HSha1.digest_blocks_loop1_src l state = digest_blocks_go state l := by
+  induction l with
+  | nil => intro s; rfl
+  | cons b bs ih =>
+    intro s
+    unfold HSha1.digest_blocks_loop1_src digest_blocks_go
+    rw [digest_block_src_eq]
+    cases digest_block s b with
+    | none => rfl
+    | some s' => exact ih s'
+
+theorem digest_blocks_src_eq (state : Spec.Sha1.Hash) (block : Bytes) :
+    HSha1.digest_blocks_src state block = digest_blocks state block := by
+  unfold HSha1.digest_blocks_src digest_blocks BLOCK_BYTES
+  rw [digest_blocks_loop_eq]
+  cases digest_blocks_go state (chunks 64 block) <;> rfl
+
+theorem digest_blocks_fun : (fun cs d => HSha1.digest_blocks_src cs d) = digest_blocks := by
+  funext cs d; exact digest_blocks_src_eq cs d
+
+theorem mk_result_src_eq (st : Context) (rs : Bytes) (hr : rs.length = 20) :
+    HSha1.mk_result_src st rs = Context.mk_result st := by
+  unfold HSha1.mk_result_src Context.mk_result
+  rw [digest_block_fun]
+  cases h1 : FixedBuffer.standard_padding 64 st.buffer 8 digest_block st.h with
+  | none => rfl
+  | some p =>
+    obtain ⟨buf, h⟩ := p
+    simp only []
+    cases h2 : FixedBuffer.next_write buf 8 (u64be (st.processed_bytes <<< (3 : UInt64))) with
+    | none => rfl
+    | some buf2 =>
+      simp only []
+      cases h3 : FixedBuffer.full_buffer 64 buf2 with
+      | none => rfl
+      | some q =>
+        obtain ⟨buf3, blk⟩ := q
+        simp only [digest_block_src_eq]
+        cases h4 : digest_block h blk with
+        | none => rfl
+        | some h' =>
+          simp only [Sha1.write_u32_be]
+          have := five_stores rs (u32be h'.a) (u32be h'.b) (u32be h'.c) (u32be h'.d) (u32be h'.e) hr
+            (u32be_length _) (u32be_length _) (u32be_length _) (u32be_length _) (u32be_length _)
+          simp only at this
+          simp only [this]
+
+theorem new_src_eq : HSha1.Context.new_src = Context.new := rfl
+
+theorem update_mut_src_eq (self : Context) (input : Bytes) :
+    HSha1.Context.update_mut_src self input = Context.update_mut self input := by
+  unfold HSha1.Context.update_mut_src Context.update_mut
+  rw [digest_blocks_fun]
+  simp only []
+  cases FixedBuffer.input 64 self.buffer input digest_blocks self.h <;> rfl
+
+theorem update_src_eq (self : Context) (input : Bytes) :
+    HSha1.Context.update_src self input = Context.update self input := by
+  unfold HSha1.Context.update_src Context.update
+  rw [update_mut_src_eq]
+  cases Context.update_mut self input <;> rfl
+
+theorem reset_src_eq (self : Context) : HSha1.Context.reset_src self = Context.reset self := rfl
+
+theorem finalize_src_eq (self : Context) : HSha1.Context.finalize_src self = Context.finalize self := by
+  unfold HSha1.Context.finalize_src Context.finalize
+  dsimp only
+  rw [mk_result_src_eq _ _ (by simp [zeros])]
+  cases Context.mk_result self <;> rfl
+
+theorem finalize_reset_src_eq (self : Context) : HSha1.Context.finalize_reset_src self = Context.finalize_reset self := by
+  unfold HSha1.Context.finalize_reset_src Context.finalize_reset
+  dsimp only
+  rw [mk_result_src_eq _ _ (by simp [zeros])]
+  cases Context.mk_result self <;> rfl
+
+theorem sha1_new_src_eq : HSha1.Sha1.new_src = Context.new := rfl
+
+theorem oneshot_eq (input : Bytes) : Hashing.sha1_src input = Impl.Sha1.sha1 input := by
+  unfold Hashing.sha1_src Impl.Sha1.sha1
+  rw [update_src_eq, sha1_new_src_eq]
+  cases Context.update Context.new input with
+  | none => rfl
+  | some c =>
+    simp only [finalize_src_eq]
+    cases Context.finalize c <;> rfl
+end HS1
+
+namespace HRmd
+open Cx.Impl.Ripemd160
+
+theorem blocks_loop_eq (l : List Bytes) : ∀ h, HRipemd160.process_msg_blocks_loop1_src l h = process_msg_blocks_go h l := by
+  induction l with
+  | nil => intro s; rfl
+  | cons b bs ih =>
+    intro s
+    unfold HRipemd160.process_msg_blocks_loop1_src process_msg_blocks_go
+    cases process_msg_block b s with
+    | none => rfl
+    | some s' => exact ih s'
+
+theorem process_msg_blocks_src_eq (data : Bytes) (h : Spec.Ripemd160.Hash) :
+    HRipemd160.process_msg_blocks_src data h = process_msg_blocks data h := by
+  unfold HRipemd160.process_msg_blocks_src process_msg_blocks
+  rw [blocks_loop_eq]
+  cases process_msg_blocks_go h (chunks 64 data) <;> rfl
+
+theorem blocks_fun : (fun cs d => HRipemd160.process_msg_blocks_src d cs) = (fun h d => process_msg_blocks d h) := by
+  funext cs d; exact process_msg_blocks_src_eq d cs
+
+theorem new_src_eq : HRipemd160.Context.new_src = Context.new := rfl
+
+theorem update_mut_src_eq (self : Context) (msg : Bytes) :
+    HRipemd160.Context.update_mut_src self msg = Context.update_mut self msg := by
+  unfold HRipemd160.Context.update_mut_src Context.update_mut
+  rw [blocks_fun]
+  simp only []
+  cases FixedBuffer.input 64 self.buffer msg (fun h d => process_msg_blocks d h) self.h <;> rfl
+
+theorem update_src_eq (self : Context) (input : Bytes) :
+    HRipemd160.Context.update_src self input = Context.update self input := by
+  unfold HRipemd160.Context.update_src Context.update
+  rw [update_mut_src_eq]
+  cases Context.update_mut self input <;> rfl
+
+theorem reset_src_eq (self : Context) : HRipemd160.Context.reset_src self = Context.reset self := rfl
+
+theorem finalize_reset_src_eq (self : Context) :
+    HRipemd160.Context.finalize_reset_src self = Context.finalize_reset self := by
+  unfold HRipemd160.Context.finalize_reset_src Context.finalize_reset
+  simp only [write_u32_le]
+  cases h1 : FixedBuffer.standard_padding 64 self.buffer 8 (fun h d => process_msg_block d h) self.h with
+  | none => rfl
+  | some p =>
+    obtain ⟨buf, h⟩ := p
+    simp only []
+    cases h2 : FixedBuffer.next_write buf 4 (u32le (self.processed_bytes <<< (3 : UInt64)).toUInt32) with
+    | none => rfl
+    | some buf2 =>
+      simp only []
+      cases h3 : FixedBuffer.next_write buf2 4 (u32le (self.processed_bytes >>> (29 : UInt64)).toUInt32) with
+      | none => rfl
+      | some buf3 =>
+        simp only []
+        cases h4 : FixedBuffer.full_buffer 64 buf3 with
+        | none => rfl
+        | some q =>
+          obtain ⟨buf4, blk⟩ := q
+          simp only []
+          cases h5 : process_msg_block blk h with
+          | none => rfl
+          | some h' =>
+            have := five_stores (zeros 20) (u32le h'.a) (u32le h'.b) (u32le h'.c) (u32le h'.d) (u32le h'.e) (by simp [zeros])
+              (u32le_length _) (u32le_length _) (u32le_length _) (u32le_length _) (u32le_length _)
+            simp only at this
+            simp only [this, reset_src_eq]
+
+theorem finalize_src_eq (self : Context) : HRipemd160.Context.finalize_src self = Context.finalize self := by
+  unfold HRipemd160.Context.finalize_src Context.finalize
+  rw [finalize_reset_src_eq]
+  cases Context.finalize_reset self <;> rfl
+
+theorem ripemd160_new_src_eq : HRipemd160.Ripemd160.new_src = Context.new := rfl
+
+theorem oneshot_eq (input : Bytes) : Hashing.ripemd160_src input = Impl.Ripemd160.ripemd160 input := by
+  unfold Hashing.ripemd160_src Impl.Ripemd160.ripemd160
+  rw [update_src_eq, ripemd160_new_src_eq]
+  cases Context.update Context.new input with
+  | none => rfl
+  | some c =>
+    simp only [finalize_src_eq]
+    cases Context.finalize c <;> rfl
+end HRmd
+
+namespace HS2
+open Cx.Impl.Sha2
+
+/-! `digest!(512 Sha512, Context512, output_512bits_at, …)` -/
+theorem Context512.new_src_eq : HSha2.Context512.new_src = Ctx512.new Sha512 := rfl
+theorem Context512.update_mut_src_eq (self : Ctx512) (input : Bytes) :
+    HSha2.Context512.update_mut_src self input = Ctx512.update_mut self input := by
+  unfold HSha2.Context512.update_mut_src Ctx512.update_mut
+  cases Engine512.input self.engine input <;> rfl
+theorem Context512.update_src_eq (self : Ctx512) (input : Bytes) :
+    HSha2.Context512.update_src self input = Ctx512.update self input := by
+  unfold HSha2.Context512.update_src Ctx512.update
+  cases Engine512.input self.engine input <;> rfl
+theorem Context512.reset_src_eq (self : Ctx512) : HSha2.Context512.reset_src self = Ctx512.reset Sha512 self := rfl
+theorem Context512.finalize_src_eq (self : Ctx512) : HSha2.Context512.finalize_src self = Ctx512.finalize Sha512 self := by
+  unfold HSha2.Context512.finalize_src Ctx512.finalize
+  dsimp only
+  cases Engine512.finish self.engine with
+  | none => rfl
+  | some e =>
+    show (match Eng512.Engine.output_512bits_at e.state (zeros 64) with | none => none | some out => some out) =
+      Eng512.Engine.output_512bits_at e.state (zeros 64)
+    cases Eng512.Engine.output_512bits_at e.state (zeros 64) <;> rfl
+theorem Context512.finalize_reset_src_eq (self : Ctx512) :
+    HSha2.Context512.finalize_reset_src self = Ctx512.finalize_reset Sha512 self := by
+  unfold HSha2.Context512.finalize_reset_src Ctx512.finalize_reset
+  dsimp only
+  cases Engine512.finish self.engine with
+  | none => rfl
+  | some e =>
+    show (match Eng512.Engine.output_512bits_at e.state (zeros 64) with | none => none | some out => _) =
+      (match Eng512.Engine.output_512bits_at e.state (zeros 64) with | none => none | some out => _)
+    cases Eng512.Engine.output_512bits_at e.state (zeros 64) <;> rfl
+theorem Sha512.new_src_eq : HSha2.Sha512.new_src = Ctx512.new Sha512 := rfl
+theorem sha512_oneshot (input : Bytes) : Hashing.sha512_src input = sha512? input := by
+  unfold Hashing.sha512_src sha512? oneShot512
+  rw [Context512.update_src_eq, Sha512.new_src_eq]
+  cases Ctx512.update (Ctx512.new Sha512) input with
+  | none => rfl
+  | some c =>
+    simp only [Context512.finalize_src_eq]
+    cases Ctx512.finalize Sha512 c <;> rfl
+
+/-! `digest!(512 Sha384, Context384, output_384bits_at, …)` -/
+theorem Context384.new_src_eq : HSha2.Context384.new_src = Ctx512.new Sha384 := rfl
+theorem Context384.update_mut_src_eq (self : Ctx512) (input : Bytes) :
+    HSha2.Context384.update_mut_src self input = Ctx512.update_mut self input := by
+  unfold HSha2.Context384.update_mut_src Ctx512.update_mut
+  cases Engine512.input self.engine input <;> rfl
+theorem Context384.update_src_eq (self : Ctx512) (input : Bytes) :
+    HSha2.Context384.update_src self input = Ctx512.update self input := by
+  unfold HSha2.Context384.update_src Ctx512.update
+  cases Engine512.input self.engine input <;> rfl
+theorem Context384.reset_src_eq (self : Ctx512) : HSha2.Context384.reset_src self = Ctx512.reset Sha384 self := rfl
+theorem Context384.finalize_src_eq (self : Ctx512) : HSha2.Context384.finalize_src self = Ctx512.finalize Sha384 self := by
+  unfold HSha2.Context384.finalize_src Ctx512.finalize
+  dsimp only
+  cases Engine512.finish self.engine with
+  | none => rfl
+  | some e =>
+    show (match Eng512.Engine.output_384bits_at e.state (zeros 48) with | none => none | some out => some out) =
+      Eng512.Engine.output_384bits_at e.state (zeros 48)
+    cases Eng512.Engine.output_384bits_at e.state (zeros 48) <;> rfl
+theorem Context384.finalize_reset_src_eq (self : Ctx512) :
+    HSha2.Context384.finalize_reset_src self = Ctx512.finalize_reset Sha384 self := by
+  unfold HSha2.Context384.finalize_reset_src Ctx512.finalize_reset
+  dsimp only
+  cases Engine512.finish self.engine with
+  | none => rfl
+  | some e =>
+    show (match Eng512.Engine.output_384bits_at e.state (zeros 48) with | none => none | some out => _) =
+      (match Eng512.Engine.output_384bits_at e.state (zeros 48) with | none => none | some out => _)
+    cases Eng512.Engine.output_384bits_at e.state (zeros 48) <;> rfl
+theorem Sha384.new_src_eq : HSha2.Sha384.new_src = Ctx512.new Sha384 := rfl
+theorem sha384_oneshot (input : Bytes) : Hashing.sha384_src input = sha384? input := by
+  unfold Hashing.sha384_src sha384? oneShot512
+  rw [Context384.update_src_eq, Sha384.new_src_eq]
+  cases Ctx512.update (Ctx512.new Sha384) input with
+  | none => rfl
+  | some c =>
+    simp only [Context384.finalize_src_eq]
+    cases Ctx512.finalize Sha384 c <;> rfl
+
+/-! `digest!(512 Sha512Trunc256, Context512_256, output_256bits_at, …)` -/
+theorem Context512_256.new_src_eq : HSha2.Context512_256.new_src = Ctx512.new Sha512Trunc256 := rfl
+theorem Context512_256.update_mut_src_eq (self : Ctx512) (input : Bytes) :
+    HSha2.Context512_256.update_mut_src self input = Ctx512.update_mut self input := by
+  unfold HSha2.Context512_256.update_mut_src Ctx512.update_mut
+  cases Engine512.input self.engine input <;> rfl
+theorem Context512_256.update_src_eq (self : Ctx512) (input : Bytes) :
+    HSha2.Context512_256.update_src self input = Ctx512.update self input := by
+  unfold HSha2.Context512_256.update_src Ctx512.update
+  cases Engine512.input self.engine input <;> rfl
+theorem Context512_256.reset_src_eq (self : Ctx512) : HSha2.Context512_256.reset_src self = Ctx512.reset Sha512Trunc256 self := rfl
+theorem Context512_256.finalize_src_eq (self : Ctx512) : HSha2.Context512_256.finalize_src self = Ctx512.finalize Sha512Trunc256 self := by
+  unfold HSha2.Context512_256.finalize_src Ctx512.finalize
+  dsimp only
+  cases Engine512.finish self.engine with
+  | none => rfl
+  | some e =>
+    show (match Eng512.Engine.output_256bits_at e.state (zeros 32) with | none => none | some out => some out) =
+      Eng512.Engine.output_256bits_at e.state (zeros 32)
+    cases Eng512.Engine.output_256bits_at e.state (zeros 32) <;> rfl
+theorem Context512_256.finalize_reset_src_eq (self : Ctx512) :
+    HSha2.Context512_256.finalize_reset_src self = Ctx512.finalize_reset Sha512Trunc256 self := by
+  unfold HSha2.Context512_256.finalize_reset_src Ctx512.finalize_reset
+  dsimp only
+  cases Engine512.finish self.engine with
+  | none => rfl
+  | some e =>
+    show (match Eng512.Engine.output_256bits_at e.state (zeros 32) with | none => none | some out => _) =
+      (match Eng512.Engine.output_256bits_at e.state (zeros 32) with | none => none | some out => _)
+    cases Eng512.Engine.output_256bits_at e.state (zeros 32) <;> rfl
+theorem Sha512Trunc256.new_src_eq : HSha2.Sha512Trunc256.new_src = Ctx512.new Sha512Trunc256 := rfl
+
+/-! `digest!(512 Sha512Trunc224, Context512_224, output_224bits_at, …)` -/
+theorem Context512_224.new_src_eq : HSha2.Context512_224.new_src = Ctx512.new Sha512Trunc224 := rfl
+theorem Context512_224.update_mut_src_eq (self : Ctx512) (input : Bytes) :
+    HSha2.Context512_224.update_mut_src self input = Ctx512.update_mut self input := by
+  unfold HSha2.Context512_224.update_mut_src Ctx512.update_mut
+  cases Engine512.input self.engine input <;> rfl
+theorem Context512_224.update_src_eq (self : Ctx512) (input : Bytes) :
+    HSha2.Context512_224.update_src self input = Ctx512.update self input := by
+  unfold HSha2.Context512_224.update_src Ctx512.update
+  cases Engine512.input self.engine input <;> rfl
+theorem Context512_224.reset_src_eq (self : Ctx512) : HSha2.Context512_224.reset_src self = Ctx512.reset Sha512Trunc224 self := rfl
+theorem Context512_224.finalize_src_eq (self : Ctx512) : HSha2.Context512_224.finalize_src self = Ctx512.finalize Sha512Trunc224 self := by
+  unfold HSha2.Context512_224.finalize_src Ctx512.finalize
+  dsimp only
+  cases Engine512.finish self.engine with
+  | none => rfl
+  | some e =>
+    show (match Eng512.Engine.output_224bits_at e.state (zeros 28) with | none => none | some out => some out) =
+      Eng512.Engine.output_224bits_at e.state (zeros 28)
+    cases Eng512.Engine.output_224bits_at e.state (zeros 28) <;> rfl
+theorem Context512_224.finalize_reset_src_eq (self : Ctx512) :
+    HSha2.Context512_224.finalize_reset_src self = Ctx512.finalize_reset Sha512Trunc224 self := by
+  unfold HSha2.Context512_224.finalize_reset_src Ctx512.finalize_reset
+  dsimp only
+  cases Engine512.finish self.engine with
+  | none => rfl
+  | some e =>
+    show (match Eng512.Engine.output_224bits_at e.state (zeros 28) with | none => none | some out => _) =
+      (match Eng512.Engine.output_224bits_at e.state (zeros 28) with | none => none | some out => _)
+    cases Eng512.Engine.output_224bits_at e.state (zeros 28) <;> rfl
+theorem Sha512Trunc224.new_src_eq : HSha2.Sha512Trunc224.new_src = Ctx512.new Sha512Trunc224 := rfl
+
+/-! `digest!(256 Sha256, Context256, output_256bits_at, …)` -/
+theorem Context256.new_src_eq : HSha2.Context256.new_src = Ctx256.new Sha256 := rfl
+theorem Context256.update_mut_src_eq (self : Ctx256) (input : Bytes) :
+    HSha2.Context256.update_mut_src self input = Ctx256.update_mut self input := by
+  unfold HSha2.Context256.update_mut_src Ctx256.update_mut
+  cases Engine256.input self.engine input <;> rfl
+theorem Context256.update_src_eq (self : Ctx256) (input : Bytes) :
+    HSha2.Context256.update_src self input = Ctx256.update self input := by
+  unfold HSha2.Context256.update_src Ctx256.update
+  cases Engine256.input self.engine input <;> rfl
+theorem Context256.reset_src_eq (self : Ctx256) : HSha2.Context256.reset_src self = Ctx256.reset Sha256 self := rfl
+theorem Context256.finalize_src_eq (self : Ctx256) : HSha2.Context256.finalize_src self = Ctx256.finalize Sha256 self := by
+  unfold HSha2.Context256.finalize_src Ctx256.finalize
+  dsimp only
+  cases Engine256.finish self.engine with
+  | none => rfl
+  | some e =>
+    show (match Eng256.Engine.output_256bits_at e.state (zeros 32) with | none => none | some out => some out) =
+      Eng256.Engine.output_256bits_at e.state (zeros 32)
+    cases Eng256.Engine.output_256bits_at e.state (zeros 32) <;> rfl
+theorem Context256.finalize_reset_src_eq (self : Ctx256) :
+    HSha2.Context256.finalize_reset_src self = Ctx256.finalize_reset Sha256 self := by
+  unfold HSha2.Context256.finalize_reset_src Ctx256.finalize_reset
+  dsimp only
+  cases Engine256.finish self.engine with
+  | none => rfl
+  | some e =>
+    show (match Eng256.Engine.output_256bits_at e.state (zeros 32) with | none => none | some out => _) =
+      (match Eng256.Engine.output_256bits_at e.state (zeros 32) with | none => none | some out => _)
+    cases Eng256.Engine.output_256bits_at e.state (zeros 32) <;> rfl
+theorem Sha256.new_src_eq : HSha2.Sha256.new_src = Ctx256.new Sha256 := rfl
+theorem sha256_oneshot (input : Bytes) : Hashing.sha256_src input = sha256? input := by
+  unfold Hashing.sha256_src sha256? oneShot256
+  rw [Context256.update_src_eq, Sha256.new_src_eq]
+  cases Ctx256.update (Ctx256.new Sha256) input with
+  | none => rfl
+  | some c =>
+    simp only [Context256.finalize_src_eq]
+    cases Ctx256.finalize Sha256 c <;> rfl
+
+/-! `digest!(256 Sha224, Context224, output_224bits_at, …)` -/
+theorem Context224.new_src_eq : HSha2.Context224.new_src = Ctx256.new Sha224 := rfl
+theorem Context224.update_mut_src_eq (self : Ctx256) (input : Bytes) :
+    HSha2.Context224.update_mut_src self input = Ctx256.update_mut self input := by
+  unfold HSha2.Context224.update_mut_src Ctx256.update_mut
+  cases Engine256.input self.engine input <;> rfl
+theorem Context224.update_src_eq (self : Ctx256) (input : Bytes) :
+    HSha2.Context224.update_src self input = Ctx256.update self input := by
+  unfold HSha2.Context224.update_src Ctx256.update
+  cases Engine256.input self.engine input <;> rfl
+theorem Context224.reset_src_eq (self : Ctx256) : HSha2.Context224.reset_src self = Ctx256.reset Sha224 self := rfl
+theorem Context224.finalize_src_eq (self : Ctx256) : HSha2.Context224.finalize_src self = Ctx256.finalize Sha224 self := by
+  unfold HSha2.Context224.finalize_src Ctx256.finalize
+  dsimp only
+  cases Engine256.finish self.engine with
+  | none => rfl
+  | some e =>
+    show (match Eng256.Engine.output_224bits_at e.state (zeros 28) with | none => none | some out => some out) =
+      Eng256.Engine.output_224bits_at e.state (zeros 28)
+    cases Eng256.Engine.output_224bits_at e.state (zeros 28) <;> rfl
+theorem Context224.finalize_reset_src_eq (self : Ctx256) :
+    HSha2.Context224.finalize_reset_src self = Ctx256.finalize_reset Sha224 self := by
+  unfold HSha2.Context224.finalize_reset_src Ctx256.finalize_reset
+  dsimp only
+  cases Engine256.finish self.engine with
+  | none => rfl
+  | some e =>
+    show (match Eng256.Engine.output_224bits_at e.state (zeros 28) with | none => none | some out => _) =
+      (match Eng256.Engine.output_224bits_at e.state (zeros 28) with | none => none | some out => _)
+    cases Eng256.Engine.output_224bits_at e.state (zeros 28) <;> rfl
+theorem Sha224.new_src_eq : HSha2.Sha224.new_src = Ctx256.new Sha224 := rfl
+theorem sha224_oneshot (input : Bytes) : Hashing.sha224_src input = sha224? input := by
+  unfold Hashing.sha224_src sha224? oneShot256
+  rw [Context224.update_src_eq, Sha224.new_src_eq]
+  cases Ctx256.update (Ctx256.new Sha224) input with
+  | none => rfl
+  | some c =>
+    simp only [Context224.finalize_src_eq]
+    cases Ctx256.finalize Sha224 c <;> rfl
+end HS2
+
+namespace HOne
+theorem sha3_224_oneshot (input : Bytes) : Hashing.sha3_224_src input = Impl.Sha3.sha3_224 input := by
+  unfold Hashing.sha3_224_src Impl.Sha3.sha3_224 Impl.Sha3.hash
+  cases Impl.Sha3.Context.update 28 Impl.Sha3.Context.new input with
+  | none => rfl
+  | some c =>
+    show (match Impl.Sha3.Context.finalize 28 2 c with | none => none | some t => some t) = Impl.Sha3.Context.finalize 28 2 c
+    cases Impl.Sha3.Context.finalize 28 2 c <;> rfl
+theorem sha3_256_oneshot (input : Bytes) : Hashing.sha3_256_src input = Impl.Sha3.sha3_256 input := by
+  unfold Hashing.sha3_256_src Impl.Sha3.sha3_256 Impl.Sha3.hash
+  cases Impl.Sha3.Context.update 32 Impl.Sha3.Context.new input with
+  | none => rfl
+  | some c =>
+    show (match Impl.Sha3.Context.finalize 32 2 c with | none => none | some t => some t) = Impl.Sha3.Context.finalize 32 2 c
+    cases Impl.Sha3.Context.finalize 32 2 c <;> rfl
+theorem sha3_384_oneshot (input : Bytes) : Hashing.sha3_384_src input = Impl.Sha3.sha3_384 input := by
+  unfold Hashing.sha3_384_src Impl.Sha3.sha3_384 Impl.Sha3.hash
+  cases Impl.Sha3.Context.update 48 Impl.Sha3.Context.new input with
+  | none => rfl
+  | some c =>
+    show (match Impl.Sha3.Context.finalize 48 2 c with | none => none | some t => some t) = Impl.Sha3.Context.finalize 48 2 c
+    cases Impl.Sha3.Context.finalize 48 2 c <;> rfl
+theorem sha3_512_oneshot (input : Bytes) : Hashing.sha3_512_src input = Impl.Sha3.sha3_512 input := by
+  unfold Hashing.sha3_512_src Impl.Sha3.sha3_512 Impl.Sha3.hash
+  cases Impl.Sha3.Context.update 64 Impl.Sha3.Context.new input with
+  | none => rfl
+  | some c =>
+    show (match Impl.Sha3.Context.finalize 64 2 c with | none => none | some t => some t) = Impl.Sha3.Context.finalize 64 2 c
+    cases Impl.Sha3.Context.finalize 64 2 c <;> rfl
+theorem keccak224_oneshot (input : Bytes) : Hashing.keccak224_src input = Impl.Sha3.keccak224 input := by
+  unfold Hashing.keccak224_src Impl.Sha3.keccak224 Impl.Sha3.hash
+  cases Impl.Sha3.Context.update 28 Impl.Sha3.Context.new input with
+  | none => rfl
+  | some c =>
+    show (match Impl.Sha3.Context.finalize 28 0 c with | none => none | some t => some t) = Impl.Sha3.Context.finalize 28 0 c
+    cases Impl.Sha3.Context.finalize 28 0 c <;> rfl
+theorem keccak256_oneshot (input : Bytes) : Hashing.keccak256_src input = Impl.Sha3.keccak256 input := by
+  unfold Hashing.keccak256_src Impl.Sha3.keccak256 Impl.Sha3.hash
+  cases Impl.Sha3.Context.update 32 Impl.Sha3.Context.new input with
+  | none => rfl
+  | some c =>
+    show (match Impl.Sha3.Context.finalize 32 0 c with | none => none | some t => some t) = Impl.Sha3.Context.finalize 32 0 c
+    cases Impl.Sha3.Context.finalize 32 0 c <;> rfl
+theorem keccak384_oneshot (input : Bytes) : Hashing.keccak384_src input = Impl.Sha3.keccak384 input := by
+  unfold Hashing.keccak384_src Impl.Sha3.keccak384 Impl.Sha3.hash
+  cases Impl.Sha3.Context.update 48 Impl.Sha3.Context.new input with
+  | none => rfl
+  | some c =>
+    show (match Impl.Sha3.Context.finalize 48 0 c with | none => none | some t => some t) = Impl.Sha3.Context.finalize 48 0 c
+    cases Impl.Sha3.Context.finalize 48 0 c <;> rfl
+theorem keccak512_oneshot (input : Bytes) : Hashing.keccak512_src input = Impl.Sha3.keccak512 input := by
+  unfold Hashing.keccak512_src Impl.Sha3.keccak512 Impl.Sha3.hash
+  cases Impl.Sha3.Context.update 64 Impl.Sha3.Context.new input with
+  | none => rfl
+  | some c =>
+    show (match Impl.Sha3.Context.finalize 64 0 c with | none => none | some t => some t) = Impl.Sha3.Context.finalize 64 0 c
+    cases Impl.Sha3.Context.finalize 64 0 c <;> rfl
+theorem blake2b_224_oneshot (input : Bytes) :
+    Hashing.blake2b_224_src input = Impl.Blake2.hashing_blake2 Impl.Blake2.b Impl.Digest.blakeProfile 224 input := by
+  unfold Hashing.blake2b_224_src Impl.Blake2.hashing_blake2
+  cases Impl.Blake2.Context.new Impl.Blake2.b 224 with
+  | none => rfl
+  | some c =>
+    simp only []
+    cases Impl.Blake2.Context.update Impl.Blake2.b Impl.Digest.blakeProfile c input with
+    | none => rfl
+    | some c2 =>
+      show (match Impl.Blake2.Context.finalize Impl.Blake2.b Impl.Digest.blakeProfile 224 c2 with | none => none | some t => some t) = Impl.Blake2.Context.finalize Impl.Blake2.b Impl.Digest.blakeProfile 224 c2
+      cases Impl.Blake2.Context.finalize Impl.Blake2.b Impl.Digest.blakeProfile 224 c2 <;> rfl
+theorem blake2b_256_oneshot (input : Bytes) :
+    Hashing.blake2b_256_src input = Impl.Blake2.hashing_blake2 Impl.Blake2.b Impl.Digest.blakeProfile 256 input := by
+  unfold Hashing.blake2b_256_src Impl.Blake2.hashing_blake2
+  cases Impl.Blake2.Context.new Impl.Blake2.b 256 with
+  | none => rfl
+  | some c =>
+    simp only []
+    cases Impl.Blake2.Context.update Impl.Blake2.b Impl.Digest.blakeProfile c input with
+    | none => rfl
+    | some c2 =>
+      show (match Impl.Blake2.Context.finalize Impl.Blake2.b Impl.Digest.blakeProfile 256 c2 with | none => none | some t => some t) = Impl.Blake2.Context.finalize Impl.Blake2.b Impl.Digest.blakeProfile 256 c2
+      cases Impl.Blake2.Context.finalize Impl.Blake2.b Impl.Digest.blakeProfile 256 c2 <;> rfl
+theorem blake2b_384_oneshot (input : Bytes) :
+    Hashing.blake2b_384_src input = Impl.Blake2.hashing_blake2 Impl.Blake2.b Impl.Digest.blakeProfile 384 input := by
+  unfold Hashing.blake2b_384_src Impl.Blake2.hashing_blake2
+  cases Impl.Blake2.Context.new Impl.Blake2.b 384 with
+  | none => rfl
+  | some c =>
+    simp only []
+    cases Impl.Blake2.Context.update Impl.Blake2.b Impl.Digest.blakeProfile c input with
+    | none => rfl
+    | some c2 =>
+      show (match Impl.Blake2.Context.finalize Impl.Blake2.b Impl.Digest.blakeProfile 384 c2 with | none => none | some t => some t) = Impl.Blake2.Context.finalize Impl.Blake2.b Impl.Digest.blakeProfile 384 c2
+      cases Impl.Blake2.Context.finalize Impl.Blake2.b Impl.Digest.blakeProfile 384 c2 <;> rfl
+theorem blake2b_512_oneshot (input : Bytes) :
+    Hashing.blake2b_512_src input = Impl.Blake2.hashing_blake2 Impl.Blake2.b Impl.Digest.blakeProfile 512 input := by
+  unfold Hashing.blake2b_512_src Impl.Blake2.hashing_blake2
+  cases Impl.Blake2.Context.new Impl.Blake2.b 512 with
+  | none => rfl
+  | some c =>
+    simp only []
+    cases Impl.Blake2.Context.update Impl.Blake2.b Impl.Digest.blakeProfile c input with
+    | none => rfl
+    | some c2 =>
+      show (match Impl.Blake2.Context.finalize Impl.Blake2.b Impl.Digest.blakeProfile 512 c2 with | none => none | some t => some t) = Impl.Blake2.Context.finalize Impl.Blake2.b Impl.Digest.blakeProfile 512 c2
+      cases Impl.Blake2.Context.finalize Impl.Blake2.b Impl.Digest.blakeProfile 512 c2 <;> rfl
+theorem blake2s_224_oneshot (input : Bytes) :
+    Hashing.blake2s_224_src input = Impl.Blake2.hashing_blake2 Impl.Blake2.s Impl.Digest.blakeProfile 224 input := by
+  unfold Hashing.blake2s_224_src Impl.Blake2.hashing_blake2
+  cases Impl.Blake2.Context.new Impl.Blake2.s 224 with
+  | none => rfl
+  | some c =>
+    simp only []
+    cases Impl.Blake2.Context.update Impl.Blake2.s Impl.Digest.blakeProfile c input with
+    | none => rfl
+    | some c2 =>
+      show (match Impl.Blake2.Context.finalize Impl.Blake2.s Impl.Digest.blakeProfile 224 c2 with | none => none | some t => some t) = Impl.Blake2.Context.finalize Impl.Blake2.s Impl.Digest.blakeProfile 224 c2
+      cases Impl.Blake2.Context.finalize Impl.Blake2.s Impl.Digest.blakeProfile 224 c2 <;> rfl
+theorem blake2s_256_oneshot (input : Bytes) :
+    Hashing.blake2s_256_src input = Impl.Blake2.hashing_blake2 Impl.Blake2.s Impl.Digest.blakeProfile 256 input := by
+  unfold Hashing.blake2s_256_src Impl.Blake2.hashing_blake2
+  cases Impl.Blake2.Context.new Impl.Blake2.s 256 with
+  | none => rfl
+  | some c =>
+    simp only []
+    cases Impl.Blake2.Context.update Impl.Blake2.s Impl.Digest.blakeProfile c input with
+    | none => rfl
+    | some c2 =>
+      show (match Impl.Blake2.Context.finalize Impl.Blake2.s Impl.Digest.blakeProfile 256 c2 with | none => none | some t => some t) = Impl.Blake2.Context.finalize Impl.Blake2.s Impl.Digest.blakeProfile 256 c2
+      cases Impl.Blake2.Context.finalize Impl.Blake2.s Impl.Digest.blakeProfile 256 c2 <;> rfl
+end HOne
 
 end Cx.Proofs.GlueDigest
